@@ -93,6 +93,9 @@ def generate(seed, tier):
                                    'value': [1.0 + 0.5 * i for i in range(12)]}))
             inserts.append((pos2, {'op': 'AddGlobalEquation', 'model': model, 'var': 'GLOBX%d' % j,
                                    'eqn': '{name:%sx} + 0.0' % nm}))
+    if rng.random() < 0.3:
+        # a diagnostic dump in the middle of construction (it generates full codes with the countries known so far)
+        inserts.append((rng.randint(secs[0][0] + 1, main_i), {'op': 'LogInfo', 'model': model}))
     # stable insertion: later positions first
     out = list(ops)
     for idx, (pos, op) in sorted(enumerate(inserts), key=lambda x: (-x[1][0], -x[0])):
